@@ -7,20 +7,26 @@ OUT=$1; AW=$2; DEST=$3; W=/tmp/chk-$DEST
 export GOPROXY=off GOSUMDB=off GOTOOLCHAIN=local
 LOG=/tmp/seedverify-$DEST.log; : > $LOG
 cleanup() { cd /; git -C /repo worktree remove --force $W 2>/dev/null; git -C /repo worktree remove --force $AW 2>/dev/null; git -C /repo worktree prune; }
-fail() { echo "SEED $DEST: REJECTED: $1" | tee -a $LOG; cleanup; exit 1; }
+fail() { echo "SEED $DEST: REJECTED: $1" | tee -a $LOG; cd /; git -C /repo worktree remove --force $W 2>/dev/null; git -C /repo worktree prune; exit 1; }
 [ -f $OUT/patch.diff ] || fail "no patch.diff"
 git -C /repo worktree remove --force $W 2>/dev/null
 git -C /repo worktree add --detach $W HEAD >>$LOG 2>&1 || fail "worktree"
 cd $W
 DEMO=$(python3 -c "import json;print(json.load(open('$OUT/meta.json')).get('demo_cmd',''))")
-for f in $OUT/*; do case "$(basename $f)" in patch.diff|meta.json) ;; *) cp -r $f $W/ ;; esac; done
+# the package directory of the demo: the last argument of demo_cmd when it is a path like ./internal/cache/
+DDIR=$(python3 -c "
+import json,re
+c=json.load(open('$OUT/meta.json')).get('demo_cmd','').strip().split()
+d=c[-1] if c else '.'
+print(d.rstrip('/') if re.match(r'^\./[A-Za-z]',d) and not d.endswith('...') else '.')")
+for f in $OUT/*; do case "$(basename $f)" in patch.diff|meta.json) ;; *) cp -r $f $W/$DDIR/ ;; esac; done
 # demo files that belong into a sub-package: the agent says where in demo_cmd; try the root first, else the package dir of the test's `package` clause is the agent's business
 run_demo() { (cd $W && eval "$(echo "$DEMO" | sed "s#$AW#$W#g; s#cd $W && ##")") >>$LOG 2>&1; }
 echo "== demo without patch" >>$LOG; run_demo || fail "demo fails without the patch"
 git apply $OUT/patch.diff >>$LOG 2>&1 || fail "patch does not apply"
 echo "== build" >>$LOG; go build ./... >>$LOG 2>&1 || fail "does not build"
 echo "== demo with patch" >>$LOG; if run_demo; then fail "demo passes with the patch"; fi
-for f in $OUT/*; do b=$(basename $f); case "$b" in patch.diff|meta.json) ;; *) rm -rf $W/$b ;; esac; done
+for f in $OUT/*; do b=$(basename $f); case "$b" in patch.diff|meta.json) ;; *) rm -rf $W/$DDIR/$b ;; esac; done
 echo "== suite" >>$LOG
 (go test -vet=off -count=1 ./... 2>&1 | tee -a $LOG | grep -E "^(FAIL|---)" ) && fail "test suite fails with the patch"
 (cd example-nonposix && go test -vet=off -count=1 ./... 2>&1 | tee -a $LOG | grep -E "^(FAIL|---)" ) && fail "nonposix suite fails"
